@@ -32,7 +32,12 @@ def run_case(case, profile=False):
     if profile:
         sys.setprofile(prof)
     try:
-        harness.run(case.get('shape', {}), dict(case['args']), ctx)
+        args = dict(case['args'])
+        if case.get('time_scale'):
+            # the same path on a dyadic float grid: every parameter (all are times in the analyses that use this) is multiplied
+            # by a power of two, so every sum and difference the simulator forms is still exact
+            args = {k: (v * case['time_scale'] if isinstance(v, (int, float)) and not isinstance(v, bool) else v) for k, v in args.items()}
+        harness.run(case.get('shape', {}), args, ctx)
     except PropertyViolation as v:
         out.update(outcome='violation', label=v.label, detail=str(v.detail)[:2000])
     except Truncated:
